@@ -217,7 +217,7 @@ fn encode_into(spec: &Spec, out: &mut Vec<u8>) -> Option<()> {
             }
         }
         Spec::Pb(i) => encode_into(i, out)?,
-        Spec::ChunkOnly(_) | Spec::ItemOnly(_) => return None,
+        Spec::ChunkOnly(_) | Spec::ItemOnly(_) | Spec::FciOnly(_) => return None,
     }
     Some(())
 }
